@@ -1426,13 +1426,13 @@ func c10Generated(run *common.Run, root string, thorough bool) {
 					run.Report(common.Cex{Sig: fmt.Sprintf("hang|where=generated programs|driver=%s", d), Summary: fmt.Sprintf("%s on the generated programs still running after %s", d, c10HangMinimum)})
 					return
 				}
-				if crash := out.Crashed(); crash != "" {
+				if crash := c10CrashText(out, d); crash != "" {
 					found := false
 					for _, g := range sel {
 						o1, _ := c10RunWithBound(drv.Req{Driver: d, Dir: dir, Flags: cfg.Flags, Env: c10DriverEnv, Patterns: []string{"./" + g.ID + "/..."}}, c10HangMinimum)
-						if o1 != nil && o1.Crashed() != "" {
+						if o1 != nil && c10CrashText(o1, d) != "" {
 							found = true
-							c10ReportCrash(run, g.Shape, o1.Crashed(), c10StackOf(o1), map[string]any{"program": g.P.Text(), "config": cfg.Name, "driver": d.String(), "cmd": o1.Cmd})
+							c10ReportCrash(run, g.Shape, c10CrashText(o1, d), c10StackOf(o1), map[string]any{"program": g.P.Text(), "config": cfg.Name, "driver": d.String(), "cmd": o1.Cmd})
 						}
 					}
 					if !found {
